@@ -34,6 +34,7 @@ def run(ctx):
             count += 1
     rep.notes['e2e_runs'] = count
     zero_order(ctx, P)
+    wynn(ctx)
     rep.notes['exhaustive'] = True
     from . import history
     history.check_cache_seed(rep, ctx.repo)
@@ -75,3 +76,38 @@ def zero_order(ctx, P):
               'core.Derivative.n (setter)', core.relpath, {'after_n=0': name0, 'after_n=2': name2},
               'the n setter re-selects _derivative_zero_order / _derivative_nonzero_order', 'Derivative/n setter',
               key='n-setter')
+
+
+def wynn(ctx):
+    """The Wynn stage of _Limit._extrapolate: row i of its output is the three-term Shanks transform of the consecutive
+    rows i, i+1, i+2 of the Richardson output, paired with the step of row i+2; it is applied only when at least three rows exist."""
+    from .c13 import make as make13, all_b
+    from ..algebra import alg_equal
+    rep = ctx.rep
+    rep.rule('R-WYNN', 'abstract run of _Limit._wynn_extrapolate on a symbolic table: output row i == Shanks(d_i, d_{i+1}, d_{i+2}) '
+             'per column (regular branch), paired with steps[i+2]; _extrapolate applies it only for more than two rows', 3)
+    lim = ctx.repo.module('limits')
+    I, models = make13(ctx.repo)
+    L = I.get_global('limits', '_Limit')
+    for rows, cols in ((3, 1), (5, 2), (4, 3)):
+        der = Arr((rows, cols), [Poly.sym('d%d_%d' % (i, c)) for i in range(rows) for c in range(cols)])
+        steps = Arr((rows, cols), [Poly.sym('h%d_%d' % (i, c)) for i in range(rows) for c in range(cols)])
+        problems = []
+        try:
+            out, err, st = I.getattr(L, '_wynn_extrapolate')(der, steps)
+            if out.shape != (rows - 2, cols) or st.shape != (rows - 2, cols) or err.shape != (rows - 2, cols):
+                problems.append('shapes %s %s %s' % (out.shape, err.shape, st.shape))
+            else:
+                for i in range(rows - 2):
+                    for c in range(cols):
+                        e0, e1, e2 = (Poly.sym('d%d_%d' % (i + k, c)) for k in range(3))
+                        want = (e1 * e1 - e0 * e2) / (2 * e1 - e0 - e2)
+                        got = all_b(out[i, c])
+                        if not alg_equal(got, want):
+                            problems.append('row %d col %d is %s' % (i, c, repr(got)[:80]))
+                        if repr(st[i, c]) != 'h%d_%d' % (i + 2, c):
+                            problems.append('row %d col %d paired with step %r' % (i, c, st[i, c]))
+        except InterpRaise as exc:
+            problems.append('raises %s: %s' % (exc.exc_name, exc.msg[:80]))
+        rep.check(not problems, 'R-WYNN', 'limits._Limit._wynn_extrapolate', lim.relpath, {'table': [rows, cols], 'problems': problems[:3]},
+                  'Shanks transform of three consecutive rows, smallest of their steps', 'table %dx%d' % (rows, cols), key='wynn')
